@@ -181,6 +181,116 @@ def measure_battery(suf, klass, strict=True):
     return out
 
 
+# ---- setter_writes: which fields each public setter writes, MEASURED (diff of the fields before / after)
+def _rand_affine(r):
+    a = np.eye(4)
+    a[:3, :3] = np.diag([r.choice([1.0, 2.0, -3.0, 0.5]) for _ in range(3)])
+    if r.random() < 0.5:
+        a[0, 1] = r.uniform(-0.3, 0.3)
+    a[:3, 3] = [r.uniform(-90, 90) for _ in range(3)]
+    return a
+
+
+def setter_args(suf, name, h, r, ent):
+    """random arguments for one public setter (None: no generator - the table generator then fails closed)"""
+    nd = len(h.get_data_shape()) if suf != 'ecat' else 3
+    if name == 'set_data_dtype':
+        if suf == 'mgh':
+            return (r.choice([0, 1, 3, 4]),)
+        return (r.choice([c for c, sz in ent.get('dtcodes', []) if sz > 0] or [16]),)
+    if name == 'set_data_shape':
+        k = r.randrange(1, 5 if suf == 'mgh' else 8)
+        sh = tuple(r.choice([1, 2, 3, 7, 64, 300]) for _ in range(k))
+        if suf in ('nifti1', 'nifti1pair') and r.random() < 0.3:
+            sh = (r.choice([40000, 163842, 70001]), 1, 1) + sh[3:]
+        return (sh,)
+    if name == 'set_zooms':
+        n = min(nd, 4) if suf == 'mgh' else nd
+        return (tuple(r.choice([0.5, 1.5, 2.0, 3.25]) for _ in range(n)),)
+    if name == 'set_data_offset':
+        return (r.choice([0, 16, 352, 544, 1024, 4096]),)
+    if name == 'set_slope_inter':
+        if suf.startswith('nifti'):
+            return (r.choice([1.0, 2.5, -0.5, None, np.nan]), r.choice([0.0, 3.0, None, np.nan]))
+        if suf.startswith('spm'):
+            return (r.choice([1.0, 2.5, -0.5, None, np.nan]), r.choice([None, 0.0]))
+        return (r.choice([None, 1.0, np.nan]), r.choice([None, 0.0]))
+    if name in ('set_qform', 'set_sform'):
+        return (_rand_affine(r), r.choice(ent.get('xform_codes', [0]) + [None]))
+    if name == 'set_intent':
+        return r.choice([('t test', (r.uniform(1, 9),), 'nm'), ('none', (), ''), ('vector', (), 'vec'), (3006, (), 'cifti'),
+                         (r.randrange(2050, 9000), (1.0, 2.0, 3.0), 'x', True)])
+    if name == 'set_dim_info':
+        return tuple(r.choice([None, 0, 1, 2]) for _ in range(3))
+    if name == 'set_slice_duration':
+        return (r.choice([0.0, 0.5, 2.0]),)
+    if name == 'set_slice_times':
+        n = h.get_n_slices()
+        order = r.choice(['asc', 'desc', 'alt'])
+        base = list(range(n))
+        if order == 'desc':
+            base = base[::-1]
+        elif order == 'alt':
+            base = list(range(0, n, 2)) + list(range(1, n, 2))
+            t = [0.0] * n
+            for rank, idx in enumerate(base):
+                t[idx] = rank * 1.0
+            return (t,)
+        return ([float(x) for x in base],)
+    if name == 'set_xyzt_units':
+        return (r.choice(['mm', 'meter', 'micron', 'unknown']), r.choice(['sec', 'msec', 'usec', 'unknown']))
+    if name == 'set_origin_from_affine':
+        return (_rand_affine(r),)
+    return None
+
+
+def measure_setter_writes(suf, ent):
+    """{setter name: [field names it was seen to write]} over a fixed pseudo-random stream of header states and
+    arguments, both byte orders; also checks that set_qform / set_sform only ever store recoder codes"""
+    import random
+    r = random.Random(20261001)
+    klass = ent['klass']
+    names = sorted(n for n in dir(klass) if n.startswith('set_') and callable(getattr(klass, n)))
+    fields = [f[0] for f in ent['layout']]
+    out = {}
+    for name in names:
+        seen = set()
+        calls = 0
+        for trial in range(60):
+            h = fresh_header(suf, klass, trial % 2)
+            with warnings.catch_warnings():
+                warnings.simplefilter('ignore')
+                # a varied starting state: a few other setters first (not measured)
+                for other in r.sample(names, min(len(names), 3)) + (['set_data_shape', 'set_dim_info'] if 'set_dim_info' in names else []):
+                    try:
+                        a = setter_args(suf, other, h, r, ent)
+                        if other == 'set_dim_info' and name in ('set_slice_duration', 'set_slice_times'):
+                            a = (None, None, r.choice([0, 1, 2]))
+                        if other == 'set_data_shape' and name in ('set_slice_times', 'set_origin_from_affine'):
+                            a = ((4, 5, 6),)
+                        if a is not None:
+                            getattr(h, other)(*a)
+                    except Exception:  # noqa: BLE001
+                        pass
+                args = setter_args(suf, name, h, r, ent)
+                if args is None:
+                    raise ValueError(f'{suf}: no argument generator for public setter {name}')
+                before = {f: np.atleast_1d(h.structarr[f]).tobytes() for f in fields}
+                try:
+                    getattr(h, name)(*args)
+                except Exception:  # noqa: BLE001 - a refused call writes nothing we rely on
+                    continue
+                calls += 1
+                after = {f: np.atleast_1d(h.structarr[f]).tobytes() for f in fields}
+                seen |= {f for f in fields if before[f] != after[f]}
+                if name in ('set_qform', 'set_sform'):
+                    for cf in ('qform_code', 'sform_code'):
+                        if int(h[cf]) not in ent.get('xform_codes', []):
+                            raise ValueError(f'{suf}.{name} stored the xform code {int(h[cf])}, not a recoder code')
+        out[name] = (sorted(seen, key=fields.index), calls)
+    return out
+
+
 def mgh_min_size(klass):
     """smallest block MGHHeader accepts (the header without the footer), measured"""
     from nibabel.wrapstruct import WrapStructError
@@ -224,6 +334,7 @@ def collect(strict=True):
             ent['xform_codes'] = xs
         if suf == 'mgh':
             ent['hdr_size'] = mgh_min_size(klass)
+        ent['setter_writes'] = measure_setter_writes(suf, ent)
         info['classes'][suf] = ent
     info['names'] = names
     info['ids'] = {n: i + 1 for i, n in enumerate(names)}
@@ -295,6 +406,11 @@ def render(info):
             w(f'Definition xform_codes_{suf} : list Z := [{"; ".join(str(x) for x in ent["xform_codes"])}].')
         if 'hdr_size' in ent:
             w(f'Definition hdr_size_{suf} : Z := {ent["hdr_size"]}.')
+        w(f'(* fields each public setter was seen to write (measured by diffing the fields before / after) *)')
+        w(f'Definition setter_writes_{suf} : list (list Z) := [')
+        w(';\n'.join('  [' + '; '.join('f_' + f for f in fl) + f']   (* {nm}: {calls} calls *)'
+                      for nm, (fl, calls) in ent['setter_writes'].items()))
+        w('].')
         w('')
     return '\n'.join(L) + '\n'
 
@@ -1273,8 +1389,8 @@ def run(chk: Check):
             chk.count(key=('D', suf, be), tag='D:default')
     # ---------------- part A
     arecs = []
-    n_valid = chk.n(48, 1500)
-    n_raw = chk.n(25, 600)
+    n_valid = chk.n(48, 400)
+    n_raw = chk.n(25, 200)
     fixed_rng = __import__('random').Random(20260930)
     for suf, ent in inf['classes'].items():
         # seed-independent core: defaults in both orders + a fixed pseudo-random stream
@@ -1338,7 +1454,7 @@ def run(chk: Check):
                 part_b_case(chk, suf, h.binaryblock, be_of(h.endianness), 'subset:' + '+'.join(sub), lines, brecs, (sub, k))
                 if suf == 'mgh':
                     break
-        for _ in range(chk.n(110, 4000)):
+        for _ in range(chk.n(110, 1200)):
             be = 1 if suf == 'mgh' else rng.randrange(2)
             hb = gen_valid(rng, suf, be)
             h = make_hdr(suf, hb.binaryblock, be_of(hb.endianness))
@@ -1354,7 +1470,7 @@ def run(chk: Check):
             if src == dst:
                 continue
             for r in (fixed_rng, rng):
-                for _ in range(chk.n(4, 60)):
+                for _ in range(chk.n(4, 20)):
                     be = r.randrange(2)
                     h = gen_valid(r, src, be)
                     if r.random() < 0.4:
@@ -1436,16 +1552,13 @@ def conv_perturb(rng, suf, h):
 
 
 UNPROVED = [
-    'C10_convert_preserves, zooms clause, for shapes stored with the FreeSurfer conventions of NIfTI-1 (large vector, ico7): not '
-    'proved (shape clause: every shape, C10_convert_preserves_shape_any; shape + zooms without conventions: '
-    'C10_convert_preserves_shape_zooms); covered by the correspondence check and the direct predicate',
     'zooms under check=True: C10_check_fix_pixdim states exactly which pixdim entries check_fix may repair, for every header that '
     'fits its layout; that the header produced by from_header(check=False) fits the destination layout (values in range after '
     'the casts) is a premise there - not proved, covered by the byte-level correspondence of every conversion',
-    'C10_written_header_has_signature over-approximates the named setters by arbitrary fitting writes to the unprotected fields; '
-    'that no named setter of the implementation writes a protected field (sizeof_hdr, magic outside finalisation, eol_check, smin, '
-    'MGH version) is tied by part S (may_contain_header and both signature definitions on every setter-built header), not proved; '
-    'raw item assignment can break the signature (C10_signature_raw_assignment_refuted)',
+    'C10_setters_keep_signature rests on the MEASURED table setter_writes (fields seen to change over a fixed pseudo-random stream '
+    'of 60 calls per public setter and class, both byte orders): a field a setter writes only under arguments the stream does '
+    'not produce would be missed by the table; part S (may_contain_header + both signature definitions on every setter-built '
+    'header) is the second tie.  Raw item assignment can break the signature (C10_signature_raw_assignment_refuted)',
     'a NIfTI-1 destination cannot represent the shapes (-1, 1, 1, ...) and (27307, 1, 6, ...): they read back as the FreeSurfer '
     'convention means them (excluded by the hypothesis `readable`; format ambiguity, not generated)',
     'C10_copy_independent is proved on the store model (fresh buffer / list ids, any mutation sequence); that the implementation '
